@@ -3,6 +3,7 @@
    Gen/DecsIR.v, regenerated from /repo/decorations.go on every run. *)
 From Coq Require Import List Arith.
 Import ListNotations.
+From DV Require Model.Tree Proofs.RestoreProofs.
 From DV Require Import Model.Tree Model.Restore Model.Cursor Gen.CursorSrc Proofs.CursorProofs.
 From DV Require Import Model.SliceHeap Proofs.SliceProofs Gen.DecsIR.
 
@@ -65,8 +66,21 @@ Theorem C19_applyDecorations_source_computes_the_model :
     e_rs env' = apply_decs s id kind name isend ds /\ e_stuck env' = false.
 Proof. exact applyDecorations_source_is_model. Qed.
 
+
+(* ... hence: rendering the list through the translated source records every comment element exactly
+   once, whatever the list operations left in it *)
+Theorem C19_translated_rendering_records_each_comment_once :
+  forall s id kind name isend ds u,
+  Proofs.RestoreProofs.cnt u (Proofs.RestoreProofs.all_uids (comments (e_rs (exec_list applyDecorations_src (decs_env s kind id name isend ds))))) =
+  (Proofs.RestoreProofs.cnt u (Proofs.RestoreProofs.all_uids (comments s)) + Proofs.RestoreProofs.cnt u (Proofs.RestoreProofs.comment_uids ds))%nat.
+Proof.
+  intros. rewrite (proj1 (applyDecorations_source_is_model s id kind name isend ds)).
+  apply Proofs.RestoreProofs.apply_decs_cnt.
+Qed.
+
 Print Assumptions C19_methods_ok.
 Print Assumptions C19_refine_list.
 Print Assumptions C19_frame.
 Print Assumptions C19_all_returns_list.
 Print Assumptions C19_applyDecorations_source_computes_the_model.
+Print Assumptions C19_translated_rendering_records_each_comment_once.
